@@ -57,6 +57,20 @@ def probe(c):
             out.append("raises " + type(e).__name__)
     return out[0] if out[0] == out[1] else out
 '''
+NPS_SRC = '''
+ARGS = %r   # tick bounds of the typed call forms (start) / (start, end); every one must raise ValueError
+def probe(c):
+    from chartparse.instrument import Instrument, Difficulty
+    out = []
+    for a in ARGS:
+        try:
+            out.append([a, "returned %%r" %% (c.notes_per_second(Instrument.GUITAR, Difficulty.EXPERT, *a),)])
+        except ValueError:
+            out.append([a, "ValueError"])
+        except Exception as e:
+            out.append([a, "raises " + type(e).__name__])
+    return out
+'''
 probe = None
 
 
@@ -72,6 +86,7 @@ def plan(tier, seed):
     if tier == "thorough":
         shards += [("corrupt", -k) for k in range(2, 6)] + [("zero", -k, j) for k in range(2, 6) for j in range(k)]
     shards += [("long", n) for n in LONG]
+    shards.append(("rates",))
     shards += [("corrupt", 100 + k) for k in range(2, 7)] + [("zero", 100 + k, j) for k in range(2, 7) for j in range(k)]
     shards += [("corrupt", 200 + k) for k in range(1, 5)] + [("zero", 200 + k, j) for k in (2, 4) for j in range(k)]
     shards += [("corrupt", 300 + k) for k in range(1, 4)] + [("zero", 303, j) for j in range(3)]
@@ -183,6 +198,34 @@ def run_shard(shard, ctx):
                 got = expect(ctx, text, "tempo %d := 0%s" % (j, "" if kd is None else ", %s event at tick %d" % (kd, t)))
                 if got is not None:
                     _queries(ctx, text, z)
+    elif kind == "rates":
+        # the rate query in its typed tick forms: a bound that is a negative tick, or a tick governed by a zero
+        # tempo, never yields a time - the call raises ValueError (whatever the other bound is)
+        notes = ["0 = N 0 0", "3 = N 1 2", "8 = N 2 0"]
+        for k in (1, 2, 4):
+            b = list(TEMPO[:k])
+            text = chart(b, extra=((), (), notes))
+            neg = [[s_] for s_ in (-1, -2, -5, -192, -10**5, -(2**40))] + [[s_, e_] for s_ in (-1, -3, -10**5) for e_ in (0, 5, 8, 60, 10**6)] + [[s_, -1] for s_ in (0, 3, 100)] + [[-5, -1], [-1, -5]]
+            src_ = NPS_SRC % (neg,)
+            got = e1.run_probe(e1.compile_probe(src_), text)
+            ctx.case((text, "nps-negative"), sample=lambda: dict(tempo=b, calls=len(neg)))
+            ctx.evaluations += len(neg)
+            exp = [[a, "ValueError"] for a in neg]
+            if got != exp:
+                e1.report(ctx, "query", text, src_, [exp], got, "notes_per_second with a negative tick bound must raise ValueError (tempo map %r)" % (b,))
+            # a zero tempo in the LAST position with the notes in front of it: the chart loads, ticks behind it have no time
+            z = list(b) + [(b[-1][0] + 20, 0)]
+            ztext = chart(z, extra=((), (), notes))
+            zt = z[-1][0]
+            zargs = [[zt], [zt + 1], [zt + 100], [0, zt], [0, zt + 5], [3, zt + 1], [zt, zt + 9], [-1, zt]]
+            src_ = NPS_SRC % (zargs,)
+            got = e1.run_probe(e1.compile_probe(src_), ztext)
+            ctx.case((ztext, "nps-zero"), sample=lambda: dict(tempo=z, calls=len(zargs)))
+            ctx.evaluations += len(zargs)
+            if isinstance(got, list) and got[:1] == ["raises"]:
+                ctx.hist["undecided(rejected although model accepts)"] += 1
+            elif got != [[a, "ValueError"] for a in zargs]:
+                e1.report(ctx, "query", ztext, src_, [[[a, "ValueError"] for a in zargs]], got, "notes_per_second with a tick bound governed by a zero tempo must raise ValueError (tempo map %r)" % (z,))
     elif kind == "long":
         n = shard[1]
         b = [(3 * i, 60000 + 1000 * (i % 7)) for i in range(n)]
